@@ -205,6 +205,47 @@ func ruleR38(c *Ctx) *RuleResult {
 					if !matched && res.String() != "#:-1" {
 						bad = append(bad, "a path without a match returns "+trunc(noEpoch(res), 60)+" instead of -1")
 					}
+					// answering -1 straight from the entry, without a search: only for the empty list
+					if !matched && g.From == 0 && res.String() == "#:-1" {
+						for n1 := 1; n1 <= 8; n1++ {
+							sat, constrained := true, false
+							for _, a := range g.Guards {
+								if len(a.Args) != 2 {
+									continue
+								}
+								isSize := func(t *Term) bool {
+									s := noEpoch(t)
+									return s == "(load (fa:size p:0))" || s == "(len (load (fa:elements p:0)))"
+								}
+								var lhs, rhs int
+								cx, okx := termConstInt(a.Args[0])
+								cy, oky := termConstInt(a.Args[1])
+								switch {
+								case isSize(a.Args[0]) && oky:
+									lhs, rhs = n1, cy
+								case isSize(a.Args[1]) && okx:
+									lhs, rhs = cx, n1
+								default:
+									continue
+								}
+								constrained = true
+								switch a.Op {
+								case "<":
+									sat = sat && lhs < rhs
+								case "<=":
+									sat = sat && lhs <= rhs
+								case "==":
+									sat = sat && lhs == rhs
+								case "!=":
+									sat = sat && lhs != rhs
+								}
+							}
+							if constrained && sat {
+								bad = append(bad, fmt.Sprintf("answers -1 without searching a list of %d element(s): %s", n1, trunc(guardsString(g), 160)))
+								break
+							}
+						}
+					}
 				}
 				if n == 0 {
 					r.undecided("indexof:"+tk, clause, p.FuncPos(fn), "no match path recognised")
